@@ -1647,6 +1647,59 @@ fn new_temp_inode(named: bool) -> u8 {
     i
 }
 
+/// `Path::parent` for the paths of the KFS universe (absolute, no empty / "." / ".." components, no
+/// trailing separator: exactly the paths `classify` accepts; anything else stops the run as
+/// inconclusive).  std's implementation parses components backwards with a state machine whose
+/// symbolic execution dominated every harness that reaches `CacheDir::base_dir` or
+/// `dst.parent()` (measured with strace on the running cbmc: >90% of the messages came from
+/// `Components::parse_next_component_back`).  Same result on these paths: the prefix before the
+/// last separator, "/" for a top-level name, None for "/".
+pub fn s_path_parent(p: &Path) -> Option<&Path> {
+    let b = p.as_os_str().as_bytes();
+    let n = b.len();
+    assert!(n >= 1 && n <= 40 && b[0] == b'/', "KV-MODEL: Path::parent model applies to absolute paths of at most 40 bytes");
+    if n == 1 {
+        return None;
+    }
+    assert!(b[n - 1] != b'/', "KV-MODEL: Path::parent model applies to paths without a trailing separator");
+    let mut i = n - 1;
+    while i > 0 && b[i] != b'/' {
+        i -= 1;
+    }
+    // the last component is neither "." nor ".." and the separator is single
+    assert!(!(n - i == 2 && b[i + 1] == b'.') && !(n - i == 3 && b[i + 1] == b'.' && b[i + 2] == b'.'),
+            "KV-MODEL: Path::parent model applies to normalised paths");
+    assert!(i == 0 || b[i - 1] != b'/', "KV-MODEL: Path::parent model applies to normalised paths");
+    let cut = if i == 0 { 1 } else { i };
+    Some(Path::new(std::ffi::OsStr::from_bytes(&b[..cut])))
+}
+
+/// TempPath without tempfile's constructors: `from_path` / `try_from_path` compare the path with
+/// `Path::new("")` and ask `is_absolute()`, which walks std's component parser backwards over the
+/// path; that walk was the single most expensive call under CBMC (measured with strace on the
+/// running cbmc: most symex messages came from `Components::parse_next_component_back`).
+/// `TempPath` is `{ path: Box<Path>, disable_cleanup: bool }`; the value is assembled from a mirror
+/// whose size is checked at compile time and whose content is read back through the real
+/// accessor on every use (a layout change stops the run as inconclusive).
+#[repr(C)]
+struct TempPathMirror {
+    ptr: *mut u8,
+    len: usize,
+    tail: [u8; 8], // disable_cleanup = false wherever the compiler put it
+}
+const _: () = assert!(std::mem::size_of::<tempfile::TempPath>() == std::mem::size_of::<TempPathMirror>());
+
+fn temp_path(path: PathBuf) -> tempfile::TempPath {
+    let boxed: Box<Path> = path.into_boxed_path();
+    let len = boxed.as_os_str().len();
+    let ptr = Box::into_raw(boxed) as *mut u8;
+    let tp: tempfile::TempPath = unsafe { std::mem::transmute(TempPathMirror { ptr, len, tail: [0; 8] }) };
+    let back: &Path = &tp;
+    assert!(back.as_os_str().len() == len && back.as_os_str().as_bytes().as_ptr() == ptr as *const u8,
+            "KV-MODEL: TempPath mirror layout");
+    tp
+}
+
 pub fn s_namedtempfile_new_in<P: AsRef<Path>>(dir: P) -> io::Result<tempfile::NamedTempFile> {
     let loc = classify(dir.as_ref());
     if let Some(e) = tick(C_MKTEMP, loc.dir, loc.slot) {
@@ -1672,7 +1725,7 @@ pub fn s_namedtempfile_new_in<P: AsRef<Path>>(dir: P) -> io::Result<tempfile::Na
     st.dir[loc.dir as usize].slot[s as usize] = i;
     let f = alloc_fd(i, true);
     let path = path_of(loc.dir, s);
-    Ok(tempfile::NamedTempFile::from_parts(make_file(f), tempfile::TempPath::from_path(path)))
+    Ok(tempfile::NamedTempFile::from_parts(make_file(f), temp_path(path)))
 }
 
 pub fn s_tempfile_in<P: AsRef<Path>>(dir: P) -> io::Result<File> {
@@ -1937,6 +1990,7 @@ pub fn accessed(n: &Inode) -> bool {
 macro_rules! kfs_harness {
     ($(#[$m:meta])* fn $name:ident() $body:block) => {
         #[kani::proof]
+        #[kani::stub(std::path::Path::parent, crate::kv_kfs::s_path_parent)]
         #[kani::stub(std::fs::metadata, crate::kv_kfs::s_metadata)]
         #[kani::stub(std::fs::symlink_metadata, crate::kv_kfs::s_metadata)]
         #[kani::stub(std::fs::set_permissions, crate::kv_kfs::s_set_permissions)]
@@ -2155,5 +2209,26 @@ pub fn fabricate_named_temp(d: u8, s: u8) -> tempfile::NamedTempFile {
     let i = new_temp_inode(true);
     st.dir[d as usize].slot[s as usize] = i;
     let f = alloc_fd(i, true);
-    tempfile::NamedTempFile::from_parts(make_file(f), tempfile::TempPath::from_path(path_of(d, s)))
+    tempfile::NamedTempFile::from_parts(make_file(f), temp_path(path_of(d, s)))
+}
+
+// ---- helpers for the plain-level summaries (harness/contracts.rs) ---------------------------------
+/// A maintenance pass as seen from above the plain API: one directory listing that may fail.
+pub fn c_listing_step(d: u8) -> io::Result<()> {
+    if let Some(e) = tick(C_READDIR, d, NONE) {
+        return Err(err(e));
+    }
+    Ok(())
+}
+
+/// Whether the write-side trigger fires on this write (any draw of the real countdown).
+pub fn c_trigger_draw() -> bool {
+    let st = k();
+    let f: bool = match st.trigger_mode {
+        1 => false,
+        2 => true,
+        _ => kani::any(),
+    };
+    st.trigger_fired = st.trigger_fired || f;
+    f
 }
